@@ -31,18 +31,27 @@ Fld(r, f, d) == IF f \in DOMAIN r THEN r[f] ELSE d
 \* shrinks windows, acknowledges what it likes, ...).  The clauses constrain real stacks only; the bookkeeping is done for both.
 Real(e) == ~(e = "b" /\ Fld(cfg, "raw_b", FALSE))
 Mtu(e) == IF e = "b" THEN Fld(cfg, "mtu_b", cfg.mtu) ELSE cfg.mtu     \* link MTU of e's interface (asymmetric paths: mtu_b)
+\* okEnd[e].ok: end of the data that arrived in segments which BEGAN inside the window e had advertised; .sus: segments that
+\* began at or beyond every edge advertised (logged) before their arrival.  An arrival is logged before the stack processes it,
+\* and e may advertise a larger window in between (its application reads): such a segment is judged against the edge e had
+\* advertised by the time the harness saw the segment PROCESSED (event `processed`, synchronous wire with procev), where it
+\* is settled for good; on a wire without that event any later advertisement that covers its start clears it (weak rule).
+OkInit == [e \in E |-> [ok |-> 0, sus |-> {}]]
+Settle(o, edge, final) == [ok |-> LET good == {s \in o.sus : s[1] < edge} IN
+                                    IF good = {} THEN o.ok ELSE Max2(o.ok, CHOOSE m \in {s[2] : s \in good} : \A s \in good : s[2] <= m),
+                           sus |-> IF final THEN {} ELSE {s \in o.sus : s[1] >= edge}]
 C5Init == [e \in E |-> C5Init0]
 Zero == [e \in E |-> 0]
 Neg == [e \in E |-> -1]
 False == [e \in E |-> FALSE]
 TInit == /\ l = 1 /\ cfg = [mtu |-> 1500] /\ up = False /\ written = Zero /\ offer = Zero /\ shut = Neg /\ emitMax = Zero
-         /\ delivered = Zero /\ eos = False /\ rstop = False /\ contig = Zero /\ pcontig = Zero /\ parked = [e \in E |-> {}] /\ okEnd = Zero /\ finArr = Neg
+         /\ delivered = Zero /\ eos = False /\ rstop = False /\ contig = Zero /\ pcontig = Zero /\ parked = [e \in E |-> {}] /\ okEnd = OkInit /\ finArr = Neg
          /\ maxEdge = Zero /\ advEdge = Neg /\ mss = Neg /\ ws = Neg /\ err = [e \in E |-> ""] /\ faults = 0 /\ c5 = C5Init /\ HWInit
 Same == UNCHANGED <<cfg, up, written, offer, shut, emitMax, delivered, eos, rstop, contig, pcontig, parked, okEnd, finArr, maxEdge, advEdge, mss, ws, err, faults, c5>>
 
 Reset == /\ IsEvent("reset")
          /\ cfg' = Ev /\ up' = False /\ written' = Zero /\ offer' = Zero /\ shut' = Neg /\ emitMax' = Zero
-         /\ delivered' = Zero /\ eos' = False /\ rstop' = False /\ contig' = Zero /\ pcontig' = Zero /\ parked' = [e \in E |-> {}] /\ okEnd' = Zero /\ finArr' = Neg
+         /\ delivered' = Zero /\ eos' = False /\ rstop' = False /\ contig' = Zero /\ pcontig' = Zero /\ parked' = [e \in E |-> {}] /\ okEnd' = OkInit /\ finArr' = Neg
          /\ maxEdge' = Zero /\ advEdge' = Neg /\ mss' = Neg /\ ws' = Neg /\ err' = [e \in E |-> ""] /\ faults' = 0 /\ c5' = C5Init
 
 Skip == /\ (IsEvent("connect") \/ IsEvent("shutret") \/ IsEvent("note")) /\ Same
@@ -70,7 +79,7 @@ Read == /\ IsEvent("read")
                            /\ \A k \in 1..Ev.n : Ev.pay[k] = Byte(Dir(p), Ev.off + k - 1)  \* exactly the peer's bytes, in order
                            /\ Ev.off + Ev.n <= written[p] + offer[p]                    \* nothing invented
                            /\ Ev.off + Ev.n <= contig[e]                                \* only data that actually arrived, in order
-           /\ On("C04") => Ev.off + Ev.n <= okEnd[e]     \* only bytes of segments that began inside the advertised window (none wholly outside it)
+           /\ On("C04") => Ev.off + Ev.n <= okEnd[e].ok  \* only bytes of segments that began inside the advertised window (none wholly outside it)
            /\ delivered' = [delivered EXCEPT ![e] = @ + Ev.n]
         /\ UNCHANGED <<cfg, up, written, offer, shut, emitMax, eos, rstop, contig, pcontig, parked, okEnd, finArr, maxEdge, advEdge, mss, ws, err, faults, c5>>
 \* C02: end-of-stream only after everything the peer wrote before its shutdown, and only once its FIN arrived
@@ -146,7 +155,12 @@ Emit == /\ IsEvent("emit") /\ "bad" \notin DOMAIN Ev
            /\ ws' = [ws EXCEPT ![e] = IF syn THEN Ev.ws ELSE @]
            /\ c5' = [c5 EXCEPT ![e] = LET c1 == IF len > 0 THEN C5AfterEmit(c5[e], off, len, Ev.t, emitMax[e]) ELSE c5[e]
                                        IN IF fin THEN [c1 EXCEPT !.finSent = TRUE] ELSE c1]
-        /\ UNCHANGED <<cfg, up, written, offer, shut, delivered, eos, rstop, contig, pcontig, parked, okEnd, finArr, maxEdge, err, faults>>
+           /\ okEnd' = [okEnd EXCEPT ![e] = IF ack /\ ~rst /\ ~Fld(cfg, "procev", FALSE) THEN Settle(@, Max2(advEdge[e], edge), FALSE) ELSE @]
+        /\ UNCHANGED <<cfg, up, written, offer, shut, delivered, eos, rstop, contig, pcontig, parked, finArr, maxEdge, err, faults>>
+\* synchronous wire: the harness saw the segment queue of e empty and its protocol goroutine idle after the last hand-over
+Processed == /\ IsEvent("processed")
+             /\ okEnd' = [okEnd EXCEPT ![Ev.to] = Settle(@, advEdge[Ev.to], TRUE)]
+             /\ UNCHANGED <<cfg, up, written, offer, shut, emitMax, delivered, eos, rstop, contig, pcontig, parked, finArr, maxEdge, advEdge, mss, ws, err, faults, c5>>
 EmitOther == /\ IsEvent("emit") /\ "bad" \in DOMAIN Ev /\ Same
 
 Arrive == /\ IsEvent("arrive") /\ "bad" \notin DOMAIN Ev
@@ -163,7 +177,9 @@ Arrive == /\ IsEvent("arrive") /\ "bad" \notin DOMAIN Ev
              /\ contig' = [contig EXCEPT ![e] = nc]
              /\ pcontig' = [pcontig EXCEPT ![e] = contig[e]]      \* what had arrived in order before this (possibly still unprocessed) arrival
              /\ parked' = [parked EXCEPT ![e] = {iv \in np : iv[2] > nc}]
-             /\ okEnd' = [okEnd EXCEPT ![e] = IF len > 0 /\ (advEdge[e] < 0 \/ off < advEdge[e]) THEN Max2(@, off + len) ELSE @]
+             /\ okEnd' = [okEnd EXCEPT ![e] = IF len = 0 THEN @
+                                              ELSE IF advEdge[e] < 0 \/ off < advEdge[e] THEN [@ EXCEPT !.ok = Max2(@, off + len)]
+                                              ELSE [@ EXCEPT !.sus = @ \cup {<<off, off + len>>}]]
              /\ finArr' = [finArr EXCEPT ![e] = IF fin /\ ~rst THEN off + len ELSE @]
              \* the window field of a SYN that carries no ACK (the peer opens actively) is an offer too: it starts at the first
              \* data byte.  (The passive side of this stack sends against it until the first ACK after the handshake arrives.)
@@ -197,7 +213,7 @@ End == /\ IsEvent("end")
                      (Ev.a.state = 5 /\ Ev.b.state = 5 /\ Ev.a.err = "" /\ Ev.b.err = "")
        /\ Same
 Panic == IsEvent("panic") /\ FALSE
-TNext == Reset \/ Skip \/ Up \/ WCall \/ WRet \/ ShutW \/ AppClose \/ Read \/ Eos \/ ReadStop \/ RErr \/ Emit \/ EmitOther \/ Arrive \/ ArriveOther
+TNext == Reset \/ Skip \/ Up \/ WCall \/ WRet \/ ShutW \/ AppClose \/ Processed \/ Read \/ Eos \/ ReadStop \/ RErr \/ Emit \/ EmitOther \/ Arrive \/ ArriveOther
          \/ Drop \/ Quiesce \/ End
 TSpec == TInit /\ [][TNext]_tvars
 ====
